@@ -356,6 +356,12 @@ def proj_case(draw, tier, kinds):
         "zscale": draw(gen.log_uniform(1e-2, 1e1)),
         "required": draw(st.booleans()),
     }
+    if typ == "mprocess":
+        # explicit outcome layouts: flat, padded with 1-axes, or a two-axis factorisation of m
+        opts = [None, (m,), (1, m), (m, 1)] + [(a, m // a) for a in range(2, m) if m % a == 0]
+        case["mshape"] = draw(st.sampled_from(opts))
+        if case["mshape"] is not None:
+            case["mshape"] = list(case["mshape"])
     if mode == "sparse":
         case["sparse"] = draw(gen.raw(stacked_size(typ, shape, m)))
     if mode == "spectral":
@@ -502,12 +508,12 @@ def check_object(case, ctx):
     x = build_x(case)
     ctx.nontrivial(_classify(case, ctx, R, x))
 
-    q = build.make(c_sys, typ, x, m=m, on_para_eq_constraint=flag)
+    q = build.make(c_sys, typ, x, m=m, on_para_eq_constraint=flag, mshape=case.get("mshape"))
     snap = _snap(q, typ)
     eps_extra = 0.0
 
     def retry():
-        q2 = build.make(c_sys, typ, x, m=m, on_para_eq_constraint=flag,
+        q2 = build.make(c_sys, typ, x, m=m, on_para_eq_constraint=flag, mshape=case.get("mshape"),
                         eps_truncate_imaginary_part=_eps_retry(float(np.max(np.abs(x)))))
         return _proj(q2, kind)
 
@@ -548,7 +554,7 @@ def check_object(case, ctx):
     # fixed point at a constructed physical object (also with the default is_physicality_required=True)
     z = physical_stacked(case["comp"])
     required = bool(case.get("required"))
-    qz = build.make(c_sys, typ, z, m=m, on_para_eq_constraint=flag, is_physicality_required=required)
+    qz = build.make(c_sys, typ, z, m=m, on_para_eq_constraint=flag, mshape=case.get("mshape"), is_physicality_required=required)
     snap_z = _snap(qz, typ)
     try:
         pz = _proj(qz, kind)
@@ -559,7 +565,7 @@ def check_object(case, ctx):
         ctx.check(False, f"physical_stays_physical:{kind}:{typ}",
                   f"projection of an accepted physical object raised ValueError: {str(e)[:100]}")
         ctx.label("physical-input-rejected")
-        qz = build.make(c_sys, typ, z, m=m, on_para_eq_constraint=flag, is_physicality_required=False)
+        qz = build.make(c_sys, typ, z, m=m, on_para_eq_constraint=flag, mshape=case.get("mshape"), is_physicality_required=False)
         snap_z = _snap(qz, typ)
         pz = _proj(qz, kind)
     ctx.equal(_snap(qz, typ), snap_z, f"no_mutation_object:{kind}:{typ}")
@@ -596,8 +602,8 @@ def check_forms(case, ctx):
     use_none = bool(case["arg_none"]) and tflag == flag
     arg = None if use_none else flag
     ctx.label(f"closure-arg:{'None' if use_none else 'explicit'}")
-    tmpl = build.make(c_sys, typ, physical_stacked(case["comp"]), m=m, on_para_eq_constraint=tflag)
-    tmpl_r = build.make(c_sys, typ, physical_stacked(case["comp"]), m=m, on_para_eq_constraint=tflag,
+    tmpl = build.make(c_sys, typ, physical_stacked(case["comp"]), m=m, on_para_eq_constraint=tflag, mshape=case.get("mshape"))
+    tmpl_r = build.make(c_sys, typ, physical_stacked(case["comp"]), m=m, on_para_eq_constraint=tflag, mshape=case.get("mshape"),
                         eps_truncate_imaginary_part=eps_r)
 
     def static(v):
